@@ -41,9 +41,17 @@ pub enum Op {
     Objective(u8),
     Drop(u8),
     Default,
+    /// evaluate with a different function g(s) = s + 100 (e.g. a surrogate)
+    EvaluateWithOther(u8),
+    CloneFrom(u8, u8),
+    VecCloneFrom,
 }
 
-type Key = Vec<(u32, bool)>;
+/// (solution, evaluation state: 0 unevaluated, 1 evaluated with f, 2 evaluated with g)
+type Key = Vec<(u32, u8)>;
+fn g(s: u32) -> f64 {
+    (s + 100) as f64
+}
 
 #[derive(Clone, Debug, PartialEq)]
 enum R {
@@ -55,37 +63,57 @@ enum R {
     Panic,
 }
 
+fn mval(x: (u32, u8)) -> Option<f64> {
+    match x.1 {
+        0 => None,
+        1 => Some(f(x.0)),
+        _ => Some(g(x.0)),
+    }
+}
+
 fn apply_model(m: &mut Key, op: &Op) -> R {
     use Op::*;
     match *op {
         NewUneval(s) => {
-            m.push((s, false));
+            m.push((s, 0));
             R::Unit
         }
         New(s) => {
-            m.push((s, true));
+            m.push((s, 1));
             R::Unit
         }
         Default => {
-            m.push((0, false));
+            m.push((0, 0));
             R::Unit
         }
         EvaluateWith(i) => {
-            m[i as usize].1 = true;
+            m[i as usize].1 = 1;
             R::Unit
         }
+        EvaluateWithOther(i) => {
+            m[i as usize].1 = 2;
+            R::Unit
+        }
+        CloneFrom(i, j) => {
+            m[i as usize] = m[j as usize];
+            R::Unit
+        }
+        VecCloneFrom => {
+            // a fresh vector of evaluated individuals is overwritten by clone_from from the current one
+            R::Nums(m.iter().map(|x| x.0 * 10 + x.1 as u32).collect())
+        }
         SetObjective(i) => {
-            let was = m[i as usize].1;
-            m[i as usize].1 = true;
+            let was = m[i as usize].1 != 0;
+            m[i as usize].1 = 1;
             R::Bool(was)
         }
         Solution(i) => R::Num(m[i as usize].0),
         SolutionMutNoWrite(i) => {
-            m[i as usize].1 = false;
+            m[i as usize].1 = 0;
             R::Num(m[i as usize].0)
         }
         SolutionMutWrite(i, s) => {
-            m[i as usize] = (s, false);
+            m[i as usize] = (s, 0);
             R::Unit
         }
         Clone(i) => {
@@ -94,33 +122,30 @@ fn apply_model(m: &mut Key, op: &Op) -> R {
             R::Unit
         }
         IntoSolutionRebuild(i) => {
-            m[i as usize].1 = false;
+            m[i as usize].1 = 0;
             R::Num(m[i as usize].0)
         }
         AsSolutions => R::Nums(m.iter().map(|x| x.0).collect()),
         AsSolutionsMutWrite(k, s) => {
             for x in m.iter_mut() {
-                x.1 = false;
+                x.1 = 0;
             }
             m[k as usize].0 = s;
             R::Unit
         }
         IntoSolutionsIntoIndividuals => {
             for x in m.iter_mut() {
-                x.1 = false;
+                x.1 = 0;
             }
             R::Nums(m.iter().map(|x| x.0).collect())
         }
-        Eq(i, j) => R::Bool(m[i as usize] == m[j as usize]),
-        GetObjective(i) => R::Obj(if m[i as usize].1 { Some(f(m[i as usize].0)) } else { None }),
-        IsEvaluated(i) => R::Bool(m[i as usize].1),
-        Objective(i) => {
-            if m[i as usize].1 {
-                R::Obj(Some(f(m[i as usize].0)))
-            } else {
-                R::Panic
-            }
-        }
+        Eq(i, j) => R::Bool(m[i as usize].0 == m[j as usize].0 && mval(m[i as usize]) == mval(m[j as usize])),
+        GetObjective(i) => R::Obj(mval(m[i as usize])),
+        IsEvaluated(i) => R::Bool(m[i as usize].1 != 0),
+        Objective(i) => match mval(m[i as usize]) {
+            Some(v) => R::Obj(Some(v)),
+            None => R::Panic,
+        },
         Drop(i) => {
             m.remove(i as usize);
             R::Unit
@@ -146,6 +171,25 @@ fn apply_impl(v: &mut Vec<Individual<NumP>>, op: &Op) -> R {
         EvaluateWith(i) => {
             v[i as usize].evaluate_with(|s| so(f(*s)));
             R::Unit
+        }
+        EvaluateWithOther(i) => {
+            v[i as usize].evaluate_with(|s| so(g(*s)));
+            R::Unit
+        }
+        CloneFrom(i, j) => {
+            let src = v[j as usize].clone();
+            v[i as usize].clone_from(&src);
+            R::Unit
+        }
+        VecCloneFrom => {
+            let mut target: Vec<Individual<NumP>> = (0..v.len()).map(|k| Individual::new(7 + k as u32, so(f(7 + k as u32)))).collect();
+            target.clone_from(v);
+            R::Nums(target.iter().map(|i| *i.solution() * 10 + match i.get_objective().map(|o| o.value()) {
+                None => 0,
+                Some(x) if x == f(*i.solution()) => 1,
+                Some(x) if x == g(*i.solution()) => 2,
+                Some(_) => 9,
+            }).collect())
         }
         SetObjective(i) => {
             let val = so(f(*v[i as usize].solution()));
@@ -212,17 +256,23 @@ pub fn run_history(hist: &[Op], op: &Op) -> StepResult<Key> {
     if got != exp {
         return StepResult::Violation(format!("C05 individual op={} return", name(op)), ctx(format!("returned {:?}, expected {:?}", got, exp)));
     }
-    let key: Key = v.iter().map(|i| (*i.solution(), i.is_evaluated())).collect();
-    // the invariant of the property, on the real objects
+    // the invariant of the property, on the real objects: the value belongs to the current solution
+    // under the function it was last evaluated with
+    let mut key: Key = vec![];
     for (k, i) in v.iter().enumerate() {
-        if let Some(o) = i.get_objective() {
-            if o.value() != f(*i.solution()) {
+        let flag = match i.get_objective().map(|o| o.value()) {
+            None => 0u8,
+            Some(x) if m.get(k).map(|e| e.1) == Some(2) && x == g(*i.solution()) => 2,
+            Some(x) if x == f(*i.solution()) => 1,
+            Some(x) if x == g(*i.solution()) => 2,
+            Some(x) => {
                 return StepResult::Violation(
                     format!("C05 individual op={} stale-objective", name(op)),
-                    ctx(format!("individual {} has solution {} and reports objective {}, but f(solution) = {}", k, i.solution(), o.value(), f(*i.solution()))),
-                );
+                    ctx(format!("individual {} has solution {} and reports objective {}, which is neither f(solution) = {} nor the surrogate's value {}", k, i.solution(), x, f(*i.solution()), g(*i.solution()))),
+                )
             }
-        }
+        };
+        key.push((*i.solution(), flag));
     }
     if key != m {
         return StepResult::Violation(format!("C05 individual op={} state", name(op)), ctx(format!("individuals are now {:?}, the evaluated/unevaluated model gives {:?}", key, m)));
@@ -239,7 +289,7 @@ impl System for Inds {
     fn ops(&self, key: &Key) -> Vec<Op> {
         use Op::*;
         let n = key.len();
-        let mut v = vec![AsSolutions, IntoSolutionsIntoIndividuals];
+        let mut v = vec![AsSolutions, IntoSolutionsIntoIndividuals, VecCloneFrom];
         if n < self.max {
             for s in 0..3 {
                 v.push(NewUneval(s));
@@ -248,6 +298,12 @@ impl System for Inds {
             v.push(Default);
         }
         for i in 0..n as u8 {
+            v.extend([EvaluateWithOther(i)]);
+            for j in 0..n as u8 {
+                if i != j {
+                    v.push(CloneFrom(i, j));
+                }
+            }
             v.extend([EvaluateWith(i), SetObjective(i), Solution(i), SolutionMutNoWrite(i), IntoSolutionRebuild(i), GetObjective(i), IsEvaluated(i), Objective(i), Drop(i)]);
             for s in 0..3 {
                 v.push(SolutionMutWrite(i, s));
@@ -313,6 +369,9 @@ fn parse_op(v: &Value) -> Result<Op, String> {
         "IsEvaluated" => IsEvaluated(a(0) as u8),
         "Objective" => Objective(a(0) as u8),
         "Drop" => Drop(a(0) as u8),
+        "EvaluateWithOther" => EvaluateWithOther(a(0) as u8),
+        "CloneFrom" => CloneFrom(a(0) as u8, a(1) as u8),
+        "VecCloneFrom" => VecCloneFrom,
         o => return Err(format!("unknown op {}", o)),
     })
 }
